@@ -17,7 +17,7 @@ import (
 // up as "context X collected a response to another survey".
 
 func c07E2E(w *W) {
-	tran := []string{"inproc", "sim", "simipc"}[w.Choose(simrt.SShape, 3)]
+	tran := []string{"inproc", "sim", "simipc", "tcp", "ipc", "tls+tcp"}[w.Choose(simrt.SShape, 6)]
 	nq := 1 + w.Choose(simrt.SShape, 3)
 	nresp := 1 + w.Choose(simrt.SShape, 3)
 	nrc := 1 + w.Choose(simrt.SShape, 2)
@@ -44,7 +44,7 @@ func c07E2E(w *W) {
 	defer sv.Close()
 	mustSet(w, sv, mangos.OptionSurveyTime, T)
 	addr := w.Addr(tran)
-	if err := sv.Listen(addr); err != nil {
+	if err := w.ListenOn(sv, addr); err != nil {
 		w.Failf("HARNESS/listen", "%v", err)
 		return
 	}
@@ -52,7 +52,7 @@ func c07E2E(w *W) {
 	for i := 0; i < nresp; i++ {
 		r := w.Sock("respondent")
 		defer r.Close()
-		if err := r.Dial(addr); err != nil {
+		if err := w.DialOn(r, addr); err != nil {
 			w.Failf("HARNESS/dial", "%v", err)
 			return
 		}
